@@ -70,6 +70,7 @@ pub fn run_c08(cx: &Ctx) -> i32 {
             t.programs += 1;
             let (is_vm, _) = engine::engine_class(&re);
             let prog = if facts.scoped { ir::from_ast(node).ok() } else { None };
+            let vm_owns_loops = engine::vm_owns_loops(&re);
             let limited: Vec<(usize, fancy_regex::Regex)> = if is_vm {
                 [0usize, 1, 2].iter().filter_map(|&l| engine::compile_with(&pattern, |b| { b.backtrack_limit(l); }).ok().map(|r| (l, r))).collect()
             } else {
@@ -158,7 +159,7 @@ pub fn run_c08(cx: &Ctx) -> i32 {
                     let mut outside = false;
                     let model = itermodel::find_iter_model(text, horizon + 2, |pos, skipped| -> Result<Option<M<()>>, String> {
                         let (o, info) = refsem::search(prog, text, pos, skipped);
-                        if info.empty_iteration || matches!(o, Outcome::Unknown) {
+                        if (info.empty_iteration && !vm_owns_loops) || matches!(o, Outcome::Unknown) {
                             outside = true;
                         }
                         match o {
